@@ -1,0 +1,18 @@
+//go:build verif
+
+package core
+
+import "github.com/nspcc-dev/neo-go/pkg/core/native"
+
+// This file is a test seam for the external verification harness (/verif, property C04).
+// It is compiled only with `-tags verif` and adds no behaviour to normal builds.
+
+// VerifNeoVotesChanged reports the votesChanged flag of the NEO native cache at the blockchain-level DAO,
+// i.e. whether some persisted transaction since the last committee refresh modified candidate votes.
+func (bc *Blockchain) VerifNeoVotesChanged() bool {
+	neo, ok := bc.neo.(*native.NEO)
+	if !ok {
+		return false
+	}
+	return neo.VerifVotesChanged(bc.dao)
+}
